@@ -3,7 +3,7 @@
 for spec in "$@"; do
   id=${spec%%:*}; ks=${spec#*:}
   for k in ${ks//,/ }; do
-    d=/tmp/seed-out/${id}r2/$k; [ -f "$d/patch.diff" ] || continue
+    d=/tmp/seed-out/${id}${SUF:-r2}/$k; [ -f "$d/patch.diff" ] || continue
     n=$(ls -d /verif/seeded/$id-* 2>/dev/null | sed "s/.*-//" | sort -n | tail -1); n=$((${n:-0}+1)); dst=/verif/seeded/$id-$n
     mkdir -p $dst; cp $d/patch.diff $d/demo_test.go $d/meta.json $dst/
     pkg=$(python3 -c "import json;print(json.load(open('$dst/meta.json')).get('demo_pkg_dir',''))")
